@@ -533,6 +533,9 @@ def to_str(I, x):
         return I.itos(x)
     if x is None:
         return "None"
+    if is_z3(x) and x.sort() == REAL and hasattr(I, "repr_fn"):
+        # str(float) is repr(float) in python 3 (A3)
+        return I.repr_fn(x)
     return Opaque("str(%s)" % type(x).__name__)
 
 
